@@ -1,27 +1,27 @@
 SPECIFICATION Spec
 CONSTANTS
   OORD <- c_OORD
-  KORD <- c_KORD5
+  KORD <- c_KORD
   GENVALS <- c_GENVALS
-  DEVS <- c_DEVS_guard
+  DEVS <- c_DEVS_code
   UNBOND = 10
   DECI = 0
   PREC = 1
   AMOUNTS = {1}
-  MAXVS = {1, 2}
+  MAXVS = {2}
   NS = {1, 2}
   INITMAXV = 2
   INITN = 1
   ADVS = {0, 1}
   MAXH = 6
-  MAXOPS = 4
-  MAXREC = 2
+  MAXOPS = 5
+  MAXREC = 1
   NOOPBUDGET = 1
   VSTAKERS = {"v"}
   PATHS = {"keeper", "pc"}
-  COVER = FALSE
+  COVER = TRUE
   NONEMPTY = FALSE
   BLOCKW = 1
 VIEW View
-INVARIANTS LeadEmit
+ACTION_CONSTRAINTS CoverEdge
 CHECK_DEADLOCK FALSE
